@@ -13,7 +13,7 @@ def build(chk):
                        "6 profiles x L in {1,2,3,5,7,10}, with and without wind", "aotools/turbulence/profile_compression.py:equivalent_layers")
     chk.bounded_native("optimal_grouping: L layers, non-negative, total conserved, heights are input heights in increasing order, cost no worse than the equal split it starts from, three global RNG states", "grouping",
                        "6 profiles x L in {1,2,4,8} x 3 RNG states, R=3", "aotools/turbulence/profile_compression.py:optimal_grouping")
-    chk.bounded_native("GCTM: L non-negative layers reproducing the first 2L-1 moments to optimiser accuracy (2e-2)", "gctm", "one profile, L in {2,3,5}", "aotools/turbulence/profile_compression.py:GCTM")
+    chk.bounded_native("GCTM: L non-negative layers reproducing the first 2L-1 moments to optimiser accuracy (2e-2)", "gctm", "one regular profile (L in {2,3,5}) and 3 irregular profiles with a ground layer at h=0 (L in {2,3})", "aotools/turbulence/profile_compression.py:GCTM")
     chk.notes.append("slab edges come from numpy.linspace(hmin, hmax, L, endpoint=False): exactly L edges by construction; a float arange (length decided by rounding) would be flagged through the bounded native witness hmax=15000, L=7")
     chk.notes.append("optimal_grouping / GCTM (local search over numba-compiled cost, scipy.optimize.minimize) are outside the executor's subset: bounded native stand-ins only")
     chk.not_decided.append("GCTM reproduces the moments 'to optimiser accuracy' (L-BFGS-B numerics)")
